@@ -126,6 +126,18 @@ type PBinding struct {
 	Acc string `json:"acc"`
 	Did string `json:"did"`
 }
+type PAccList struct {
+	Did  string   `json:"did"`
+	Accs []string `json:"accs"` // account DIDs
+}
+type PAccId struct {
+	Ad  string `json:"ad"`  // account DID
+	Acc string `json:"acc"` // account (name, or raw CAIP-10 id)
+}
+type PVersions struct {
+	Doc      string   `json:"doc"`
+	Versions []string `json:"versions"`
+}
 type PDidBal struct {
 	Did string `json:"did"`
 	Amt int64  `json:"amt"`
@@ -187,11 +199,17 @@ type State struct {
 	Kids      []PPay           `json:"kids"`
 	Bindings  []PBinding       `json:"bindings"`
 	DidBal    []PDidBal        `json:"didBal"`
+	AccLists  []PAccList       `json:"accLists"`
+	AccIds    []PAccId         `json:"accIds"`
+	AccAuths  []string         `json:"accAuths"`
+	Versions  []PVersions      `json:"versions"`
+	Seeds     []PAccList       `json:"seeds"`
 	Faults    []PFault         `json:"faults"`
 	FaultIdx  []PFaultIdx      `json:"faultIdx"`
 	Fishing   []PFishing       `json:"fishing"`
 	Delegs    []PDeleg         `json:"delegs"`
 	Vals      []PVal           `json:"vals"`
+	Vol       string           `json:"vol"` // process-global of the staking hooks ("" without the verif hooks, "0" when clear)
 	Inexact   []string         `json:"inexact"`
 	Junk      []string         `json:"junk"` // undecodable keys found under the node module's prefixes
 }
@@ -357,6 +375,34 @@ func (c *Chain) Project() State {
 	for _, b := range a.DidKeeper.GetAllDidBalances(ctx) {
 		s.DidBal = append(s.DidBal, PDidBal{Did: c.Name(b.Did), Amt: b.Balance.Amount.Int64()})
 	}
+	accName := func(id string) string {
+		if strings.HasPrefix(id, "cosmos:"+ChainID+":") {
+			return c.Name(strings.TrimPrefix(id, "cosmos:"+ChainID+":"))
+		}
+		return id
+	}
+	s.AccLists, s.AccIds, s.AccAuths, s.Versions, s.Seeds = []PAccList{}, []PAccId{}, []string{}, []PVersions{}, []PAccList{}
+	for _, l := range a.DidKeeper.GetAllAccountList(ctx) {
+		s.AccLists = append(s.AccLists, PAccList{Did: c.Name(l.Did), Accs: c.names_(l.AccountDids)})
+	}
+	for _, x := range a.DidKeeper.GetAllAccountId(ctx) {
+		s.AccIds = append(s.AccIds, PAccId{Ad: c.Name(x.AccountDid), Acc: accName(x.AccountId)})
+	}
+	for _, x := range a.DidKeeper.GetAllAccountAuth(ctx) {
+		s.AccAuths = append(s.AccAuths, c.Name(x.AccountDid))
+	}
+	for _, v := range a.DidKeeper.GetAllSidDocumentVersion(ctx) {
+		s.Versions = append(s.Versions, PVersions{Doc: c.Name("did:sid:" + v.DocId), Versions: c.names_(v.VersionList)})
+	}
+	for _, v := range a.DidKeeper.GetAllPastSeeds(ctx) {
+		s.Seeds = append(s.Seeds, PAccList{Did: c.Name(v.Did), Accs: v.Seeds})
+	}
+	sort.SliceStable(s.AccLists, func(i, j int) bool { return s.AccLists[i].Did < s.AccLists[j].Did })
+	sort.SliceStable(s.AccIds, func(i, j int) bool { return s.AccIds[i].Ad < s.AccIds[j].Ad })
+	sort.Strings(s.AccAuths)
+	sort.SliceStable(s.Versions, func(i, j int) bool { return s.Versions[i].Doc < s.Versions[j].Doc })
+	sort.SliceStable(s.Seeds, func(i, j int) bool { return s.Seeds[i].Did < s.Seeds[j].Did })
+	sort.SliceStable(s.Bindings, func(i, j int) bool { return s.Bindings[i].Acc < s.Bindings[j].Acc })
 	// raw stores of the node module that have no exported getter
 	nk := a.GetKey(nodetypes.StoreKey)
 	s.Faults, s.FaultIdx, s.Fishing = []PFault{}, []PFaultIdx{}, []PFishing{}
@@ -404,6 +450,13 @@ func (c *Chain) Project() State {
 			ds, okD := decScaled(d.Shares, 0)
 			inex("delegs."+c.Name(d.DelegatorAddress)+"."+v.Name, okD)
 			s.Delegs = append(s.Delegs, PDeleg{D: c.Name(d.DelegatorAddress), V: v.Name, Shares: ds})
+		}
+	}
+	if v, who := volatileShares(); v != "" {
+		if d, err := sdk.NewDecFromStr(v); err == nil && d.IsZero() {
+			s.Vol = "0"
+		} else {
+			s.Vol = v + "@" + c.renameAll(who)
 		}
 	}
 	sort.Strings(s.Inexact)
